@@ -344,3 +344,45 @@ Theorem c15_gen_weight_shapes :
          (filter (fun r => contains "_weight_matrix" (r_name r)) regions).
 Proof. exact Par_Region_Gen.gen_weight_shapes. Qed.
 Print Assumptions c15_gen_weight_shapes.
+
+(* ---------------------------------------------------------------- preserved private state *)
+From TK Require Par_Proof_Restore.
+
+(* T20 Bernstein with PRESERVED private state (generalises T2; P empty gives T2).  P is a set of private
+   keys holding a canonical content `canon` whenever a thread is between iterations: data set up once
+   per thread before the loop and never written by the body (the translator's class PConst: rhs =
+   Ones(k), column 0 of G), and objects the body mutates but resets before it ends (class PRestored:
+   heap.clear(), local_triplets.clear()).  Bodies may read P-keys without writing them first
+   (reinit P) provided they leave them canonical.  Same conclusion as T2, for every assignment,
+   schedule and canonical initial private memory. *)
+Theorem c15_bernstein_restore :
+  forall (K : Type) (K_eqb : K -> K -> bool), (forall x y, K_eqb x y = true <-> x = y) ->
+  forall (V C : Type) (n : nat) (body : nat -> prog K V C) (R W : nat -> K -> Prop),
+    fp_disjoint n R W ->
+    (forall i, i < n -> within (R i) (W i) (body i)) ->
+  forall (P : K -> Prop) (canon : K -> V),
+    (forall i, i < n -> reinit P (body i)) ->
+    (forall i t (st : state K V C), i < n ->
+       (forall x, P x -> pr st t x = canon x) ->
+       forall x, P x -> pr (run K_eqb t i (body i) st) t x = canon x) ->
+  forall (m0 : K -> V) (pref : nat -> K -> V),
+    (forall x, P x -> pref 0 x = canon x) ->
+  forall asg p0 sch qs st,
+    valid_asg n asg ->
+    (forall t x, P x -> p0 t x = canon x) ->
+    run_sched K_eqb sch (init_queues body asg, mkState m0 p0 []) = (qs, st) ->
+    ~ race qs /\
+    (done qs ->
+       (forall i x, i < n -> W i x -> sh st x = Par_Proof_Restore.Final K K_eqb V C body m0 pref i x) /\
+       (forall x, (forall i, i < n -> ~ W i x) -> sh st x = m0 x) /\
+       (forall i, i < n -> proj i (clog st) = Par_Proof_Restore.isolog K K_eqb V C body m0 pref i) /\
+       (forall j c, In (j, c) (clog st) -> j < n)).
+Proof. exact Par_Proof_Restore.bernstein_restore. Qed.
+Print Assumptions c15_bernstein_restore.
+
+(* non-vacuity of T20: a body that reads a heap-like private object first, mutates it and resets it *)
+Example c15_heap_restore_example : forall asg p0 sch qs st,
+  valid_asg 2 asg -> (forall t x, heapP x -> p0 t x = heap_canon x) ->
+  run_sched key_eqb sch (init_queues heap_body asg, mkState ex_m0 p0 []) = (qs, st) ->
+  ~ race qs /\ (done qs -> sh st (dm 0 0) = 7%Z /\ sh st (dm 1 1) = 8%Z).
+Proof. exact Par_Example.ex_heap_restore. Qed.
